@@ -180,7 +180,9 @@ impl Property for P {
             case(&[1, 2], &[], &[(1, c, 2), (1, p, 2)], 1, true),
             // non-aggregating references are not followed; ghost target 9 is not a node
             case(&[1, 2, 3], &[], &[(1, g, 2), (1, HAS_TYPE_DEFINITION, 3), (1, c, 9), (9, c, 3)], 1, true),
-            // deleting an id that is not a node but has references
+            // deleting an id that is not a node but has references: only the references go, the
+            // "children" reached through left-over references stay (delete looks for children of existing nodes only)
+            case(&[2], &[], &[(1, c, 2)], 1, true),
             case(&[2, 3], &[], &[(1, c, 2), (2, c, 3), (3, g, 1)], 1, true),
             case(&[2, 3], &[], &[(1, c, 2), (2, c, 3), (3, g, 1)], 1, false),
             // nothing to delete
